@@ -74,3 +74,9 @@ MUTANTS += [
     ("c11-finditer-limited", "C11", CO, "            for match_result in match_iterator:\n                if match_result:", "            for n_hit, match_result in enumerate(match_iterator):\n                if match_result and n_hit < 3:"),
     ("c17-deref-two-values-silent", "C17", "jasm_regex/tree_generators/pattern_node_implementations/deref.py", '                raise ValueError("Children list must contain exactly one element")', '                pass'),
 ]
+
+MUTANTS += [
+    ("c05-times-item-without-operands-capturing", "C05", MO, 'return f"(?:{IGNORE_INST_ADDR}(?:{pattern_node_name}{SKIP_TO_END_OF_PATTERN_NODE})){times_regex}"', 'return f"(?:{IGNORE_INST_ADDR}({pattern_node_name}{SKIP_TO_END_OF_PATTERN_NODE})){times_regex}"'),
+    ("c05-or-group-capturing", "C05", NB, 'return f"(?:{self.join_or_instructions(child_regexes)})"', 'return f"({self.join_or_instructions(child_regexes)})"'),
+    ("c05-not-group-capturing", "C05", NB, 'return f"(?:(?!{\'\'.join(child_regexes)}){self.skip_regex})"', 'return f"((?!{\'\'.join(child_regexes)}){self.skip_regex})"'),
+]
